@@ -10,7 +10,10 @@ rmdir "$wt"
 git -C /repo worktree add --detach "$wt" HEAD >/dev/null 2>&1 || { echo "worktree failed"; exit 2; }
 cleanup() { git -C /repo worktree remove --force "$wt" >/dev/null 2>&1; rm -rf "$wt" /tmp/mutant-ev.$$ /tmp/mutant-rp.$$; }
 trap cleanup EXIT
-if ! git -C "$wt" apply "$patch"; then echo "MUTANT patch does not apply"; exit 2; fi
+if ! git -C "$wt" apply "$patch" 2>/dev/null; then
+  # the tree has moved on since the patch was written (fix commits): retry with fuzz
+  ( cd "$wt" && patch -p1 -F3 -s --no-backup-if-mismatch < "$patch" >/dev/null 2>&1 ) || { echo "MUTANT patch does not apply"; exit 2; }
+fi
 if [ "${SKIP_SUITE:-0}" != 1 ]; then
   ( cd "$wt" && make -j16 >/dev/null 2>&1 ) || { echo "MUTANT does not build"; exit 2; }
   ( cd "$wt" && ./build/testx509 2>&1 | tail -3 ) > /tmp/mutant-suite.$$ 2>&1
